@@ -47,6 +47,9 @@ func run(c *Ctx) error {
 	}
 	for i := 0; i < n; i++ {
 		seed := c.Rng.Int63()
+		if i%12 == 5 {
+			seed = -seed - 1 // a negative seed is the scripted run "lite peer, application renominates an unvalidated pair"
+		}
 		ok := false
 		for attempt := 0; attempt < 4 && !ok; attempt++ {
 			var err error
@@ -66,9 +69,20 @@ func oneRun(c *Ctx, seed int64) (bool, error) {
 	topo := agenth.RandomTopology(r)
 	renom := r.Intn(10) < 4
 	sameRole := r.Intn(100) < 15
+	// scripted run: A full and controlling with renomination, B lite; B can be reached from A but not the reverse; the
+	// application on A renominates a pair that never became valid
+	special := seed < 0
+	if special {
+		renom, sameRole = true, false
+		for i := range topo.Reach {
+			for j := range topo.Reach[i] {
+				topo.Reach[i][j], topo.Back[j][i] = true, false
+			}
+		}
+	}
 	mk := func(lu int, tb uint64, ren bool) agenth.Config {
 		return agenth.Config{MaxReq: -1, Disc: -1, Failed: -1, Keepalive: -1, WaitHost: 0, WaitSrflx: 0, WaitPrflx: 0, WaitRelay: 0,
-			TCPPrioOffset: -1, LUfrag: lu, LPwd: lu, TieBreaker: tb, Renomination: ren}
+			TCPPrioOffset: -1, LUfrag: lu, LPwd: lu, TieBreaker: tb, Renomination: ren, Lite: special && lu == 2}
 	}
 	tbA, tbB := r.Uint64(), r.Uint64()
 	switch r.Intn(6) {
@@ -92,7 +106,7 @@ func oneRun(c *Ctx, seed int64) (bool, error) {
 	defer sb.Close()
 	p := agenth.NewPair(r, sa, sb, topo)
 	victim := false
-	if renom && r.Intn(2) == 0 {
+	if renom && !special && r.Intn(2) == 0 {
 		// B's first few checks towards one bidirectionally reachable endpoint pair are lost
 		var cand [][2]int
 		for i := range topo.Reach {
@@ -125,7 +139,7 @@ func oneRun(c *Ctx, seed int64) (bool, error) {
 	p.Signal(0, 201)
 	// trickle: B may learn A's candidates only after A's first checks have arrived (peer-reflexive
 	// candidates on B, later superseded by the signalled ones)
-	lateSignal := r.Intn(3) == 0
+	lateSignal := r.Intn(3) == 0 && !special
 	if lateSignal {
 		for k := 0; k < 1+r.Intn(3); k++ {
 			p.Do(0, agenth.Op{Kind: "TK"})
@@ -140,7 +154,22 @@ func oneRun(c *Ctx, seed int64) (bool, error) {
 		c.Count("run:late_signalling_to_B")
 	}
 	p.Signal(1, 201)
+	if special {
+		c.Count("run:lite_peer_renominate_unvalidated")
+		for k := 0; k < 2; k++ {
+			p.Do(0, agenth.Op{Kind: "TK"})
+			p.DeliverAll()
+			p.Do(1, agenth.Op{Kind: "TK"})
+			p.DeliverAll()
+		}
+		// the application renominates the pair of A's first local and first signalled remote candidate
+		p.Do(0, agenth.Op{Kind: "RN", A: topo.A[0].H, B: 201, V: 1})
+		p.DeliverAll()
+	}
 	lossy := r.Intn(4)
+	if special {
+		lossy = 0
+	}
 	for k := 0; k < lossy; k++ {
 		p.Do(0, agenth.Op{Kind: "TK"})
 		p.Do(1, agenth.Op{Kind: "TK"})
